@@ -174,7 +174,13 @@ struct Reg { Reg(std::string n, std::function<void(Ctx<TraceFam>&)> t, std::func
 #define VT_CAT2(a, b) a##b
 #define VT_CAT(a, b) VT_CAT2(a, b)
 // ENTRY(name) { body using `c` and family `S` }
-#ifdef VT_SIMD
+#ifdef VT_GOLDEN_ONLY
+// the concrete side of the SIMD self-validation: only the real instantiation is built (VT_GOLDEN_OUT)
+#define ENTRY(NAME) \
+	template<class S> static void VT_CAT(ent_, NAME)(vt::Ctx<S>& c); \
+	static vt::Reg VT_CAT(reg_, NAME)(#NAME, std::function<void(vt::Ctx<vt::TraceFam>&)>(), &VT_CAT(ent_, NAME)<vt::ConcFam>); \
+	template<class S> static void VT_CAT(ent_, NAME)(vt::Ctx<S>& c)
+#elif defined(VT_SIMD)
 // SIMD mode: the concrete side is another binary (the same entries built with the compiler's intrinsics, VT_GOLDEN_OUT)
 #define ENTRY(NAME) \
 	template<class S> static void VT_CAT(ent_, NAME)(vt::Ctx<S>& c); \
@@ -401,6 +407,7 @@ inline int run_all(char const* module_comment, std::ostream& out, std::ostream& 
 			Ctx<ConcFam> cc; cc.seed = seed; cc.trial = t; cc.flavour = fl; e.cc(cc);
 			gout << e.name << " " << fl << " " << t; for (auto const& o : cc.outs) gout << " " << (int)o.val.k << ":" << std::hex << o.val.bits << std::dec; gout << "\n";
 		}
+		if (!e.tr) continue;   // golden-only build
 		Graph& g = G(); g.reset_all(); g.tracing = true;
 		std::vector<PathRes> paths; bool more = true; std::string fatal;
 		while (more) {
